@@ -650,6 +650,45 @@ def _no_intervening_mutation(blk: list[ast.stmt], st: ast.stmt, name: str, clash
     return not _mutates([tail], clash)
 
 
+def _rebound_names(fn: ast.FunctionDef) -> set[str]:
+    "names bound more than once (assignment, augmented assignment, loop / comprehension targets count as repeated binding)"
+    counts: dict[str, int] = {}
+    out: set[str] = set()
+    for n in _walk_fn(fn):
+        if isinstance(n, ast.Name) and isinstance(n.ctx, ast.Store):
+            counts[n.id] = counts.get(n.id, 0) + 1
+        if isinstance(n, ast.AugAssign) and isinstance(n.target, ast.Name):
+            out.add(n.target.id)
+        if isinstance(n, (ast.For, ast.comprehension)):
+            for t in ast.walk(n.target):
+                if isinstance(t, ast.Name):
+                    out.add(t.id)
+    return out | {k for k, v in counts.items() if v > 1}
+
+
+def _attr_reassigned(fn: ast.FunctionDef, chain: str) -> bool:
+    "is any prefix `a.b` (b an attribute) of the dotted chain the target of an assignment / deletion in the function?"
+    parts = chain.split(".")
+    prefixes = {".".join(parts[:i]) for i in range(2, len(parts) + 1)}
+    for n in _walk_fn(fn):
+        tg = []
+        if isinstance(n, ast.Assign):
+            tg = n.targets
+        elif isinstance(n, (ast.AnnAssign, ast.AugAssign)):
+            tg = [n.target]
+        elif isinstance(n, ast.Delete):
+            tg = n.targets
+        for t in tg:
+            for tt in (t.elts if isinstance(t, (ast.Tuple, ast.List)) else [t]):
+                if isinstance(tt, ast.Attribute) and _dotted(tt) in prefixes:
+                    return True
+                # maze.__dict__["generation_meta"] = ...
+                if isinstance(tt, ast.Subscript) and isinstance(tt.value, ast.Attribute) and tt.value.attr == "__dict__" and isinstance(tt.slice, ast.Constant):
+                    if f"{_dotted(tt.value.value)}.{tt.slice.value}" in prefixes:
+                        return True
+    return False
+
+
 def _propagate_new_locals(fn: ast.FunctionDef, ref_locals: list[str], log: list[str]) -> None:
     "R2 (in place)"
     for _ in range(8):
@@ -659,9 +698,13 @@ def _propagate_new_locals(fn: ast.FunctionDef, ref_locals: list[str], log: list[
             return
         mutated = _mutated_names(fn)
         progressed = False
+        rebound = _rebound_names(fn)
         for name in new:
+            alias_only = False
             if name in mutated:
-                continue
+                if name in rebound:
+                    continue
+                alias_only = True  # only element stores / mutating calls through the name: fine if it is an alias of a reference chain
             defs = []
             holder = None
             for parent in ast.walk(fn):
@@ -679,10 +722,15 @@ def _propagate_new_locals(fn: ast.FunctionDef, ref_locals: list[str], log: list[
             rhs = st.value
             if not _is_pure(rhs):
                 continue
+            if alias_only:
+                # `v = a.b.c` (no calls, no subscripts): v is the same object as a.b.c as long as neither `a` is re-bound nor `a.b` / `a.b.c` re-assigned
+                chain = _dotted(rhs)
+                if chain is None or chain.split(".")[0] in rebound or _attr_reassigned(fn, chain):
+                    continue
             used = {x.id for x in ast.walk(rhs) if isinstance(x, ast.Name)}
             if name in used:
                 continue
-            clash = used & mutated
+            clash = (used & mutated) if not alias_only else (used & rebound)
             if clash and not (clash <= _element_stored_only(fn) and _shape_reads_only(rhs, clash)):
                 # still safe when nothing between the definition and its (same-block) uses re-binds or mutates those names
                 if not _no_intervening_mutation(blk, st, name, clash):
@@ -842,7 +890,55 @@ def _forward_substitute_single_use(fn: ast.FunctionDef, ref_locals: list[str], l
     return changed
 
 
-def _recover_renames(fn: ast.FunctionDef, ref_locals: list[str], log: list[str]) -> None:
+def rhs_head(e: ast.AST | None) -> str:
+    "coarse kind of a defining expression: used to refuse renames between locals that are defined in unrelated ways"
+    if e is None:
+        return "?"
+    if isinstance(e, ast.Call):
+        return "call:" + (_dotted(e.func) or "?").rsplit(".", 1)[-1]
+    if isinstance(e, (ast.Attribute, ast.Name)):
+        return "ref"
+    if isinstance(e, ast.Subscript):
+        return "subscript"
+    if isinstance(e, ast.Constant):
+        return "const"
+    if isinstance(e, (ast.List, ast.ListComp, ast.Tuple, ast.Set, ast.SetComp, ast.Dict, ast.DictComp, ast.GeneratorExp)):
+        return "display"
+    return type(e).__name__
+
+
+def local_heads(fn: ast.FunctionDef) -> dict[str, str]:
+    "local -> head of its first defining expression (assignments only; loop / with / except targets and parameters: '?')"
+    first: dict[str, tuple] = {}
+    for n in _walk_fn(fn):
+        if isinstance(n, (ast.Assign, ast.AnnAssign)) and getattr(n, "value", None) is not None:
+            tg = n.targets if isinstance(n, ast.Assign) else [n.target]
+            for t in tg:
+                if isinstance(t, ast.Name):
+                    key = (n.lineno, n.col_offset)
+                    if t.id not in first or key < first[t.id][0]:
+                        first[t.id] = (key, rhs_head(n.value))
+    return {k: v[1] for k, v in first.items()}
+
+
+def _compatible(fn: ast.FunctionDef, mapping: dict[str, str], ref_heads: dict[str, str] | None) -> dict[str, str]:
+    "drop rename pairs whose defining expressions are of unrelated kinds"
+    if not ref_heads:
+        return mapping
+    cur = local_heads(fn)
+    out = {}
+    for a, b in mapping.items():
+        ha, hb = cur.get(a, "?"), ref_heads.get(b, "?")
+        if ha == "?" or hb == "?" or ha == hb or {ha, hb} <= {"IfExp", "const", "ref", "subscript"} and False:
+            out[a] = b
+        elif ha.startswith("call:") and hb.startswith("call:") and ha != hb:
+            continue
+        elif ha != hb:
+            continue
+    return out
+
+
+def _recover_renames(fn: ast.FunctionDef, ref_locals: list[str], log: list[str], ref_heads: dict | None = None) -> None:
     "R3 (in place)"
     cur = local_names(fn)
     new = [n for n in cur if n not in ref_locals]
@@ -850,6 +946,8 @@ def _recover_renames(fn: ast.FunctionDef, ref_locals: list[str], log: list[str])
     if not new or len(new) != len(missing):
         return
     mapping = dict(zip(new, missing))
+    if _compatible(fn, mapping, ref_heads) != mapping:
+        return
     renamed = [mapping.get(n, n) for n in cur]
     # the mapping must restore the reference's relative order of the locals both lists share
     common_ref = [n for n in ref_locals if n in renamed]
@@ -908,7 +1006,7 @@ def _unroll_const_loops(fn: ast.FunctionDef, log: list[str]) -> bool:
     return changed
 
 
-def _recover_renames_by_position(fn: ast.FunctionDef, ref_locals: list[str], log: list[str]) -> None:
+def _recover_renames_by_position(fn: ast.FunctionDef, ref_locals: list[str], log: list[str], ref_heads: dict | None = None) -> None:
     """R3a (in place, before R2): between two consecutive locals that both lists share, a run of new names of the same length as
     the run of vanished reference names is a rename"""
     cur = local_names(fn)
@@ -932,6 +1030,7 @@ def _recover_renames_by_position(fn: ast.FunctionDef, ref_locals: list[str], log
     for a, b in zip(runs(cur, keep), runs(ref_locals, keep)):
         if a and len(a) == len(b):
             mapping.update(zip(a, b))
+    mapping = _compatible(fn, mapping, ref_heads)
     if mapping:
         _Rename(mapping).visit(fn)
         log.append("renamed back (by position): " + ", ".join(f"{a}->{b}" for a, b in mapping.items()))
@@ -1378,13 +1477,14 @@ def normalize_module(tree: ast.Module, modname: str, log: list[str] | None = Non
     for q, f, c, b in _functions(tree, modname):
         if q in ref:
             rl = ref[q]["locals"]
-            _recover_renames_by_position(f, rl, log)
+            rh = ref[q].get("heads")
+            _recover_renames_by_position(f, rl, log, rh)
             _propagate_new_locals(f, rl, log)
             if _forward_substitute_single_use(f, rl, log):
                 _propagate_new_locals(f, rl, log)
             if _unroll_const_loops(f, log):
                 _propagate_new_locals(f, rl, log)
-            _recover_renames(f, rl, log)
+            _recover_renames(f, rl, log, rh)
     for _ in range(4):
         before = ast.dump(tree)
         tree = _Global().visit(tree)
